@@ -54,10 +54,19 @@ def subst_seq(s, k, j):
         v = subst(v, k, j)
         return subst(v, p, i)
     out = Seq(subst(s.len, k, j) if is_z3(s.len) else s.len, at, s.sort, s.note)
-    for a in ("enum", "guard", "value", "src_len"):
-        if hasattr(s, a):
-            # structure hints are index-dependent; drop them (pointwise access stays valid)
-            pass
+    if getattr(s, "enum", None) is not None:
+        # an enumeration created inside the loop body (its symbols are functions of the loop index): keep its
+        # instance at index j so that it can be identified with enumerations of equivalent predicates
+        from .core import CURRENT_CTX
+        ctx = CURRENT_CTX.get("ctx")
+        if ctx is not None:
+            try:
+                out.enum = s.enum.instance(ctx, lambda t: subst(t, k, j))
+                if getattr(s, "value", None) is not None:
+                    pv = z3.Int("p!val")
+                    out.value = lambda i, s=s: subst(subst(s.value(pv), k, j), pv, i)
+            except Exception:
+                pass
     return out
 
 
@@ -79,7 +88,10 @@ def merge(cond, a, b):
         return tuple(merge(cond, x, y) for x, y in zip(a, b))
     if isinstance(a, Seq) and isinstance(b, Seq):
         la, lb = zint(a.len), zint(b.len)
-        return Seq(conc(z3.If(cond, la, lb)), lambda i: merge(cond, a.at(i), b.at(i)), a.sort if a.sort == b.sort else None)
+        out = Seq(conc(z3.If(cond, la, lb)), lambda i: merge(cond, a.at(i), b.at(i)), a.sort if a.sort == b.sort else None)
+        if getattr(a, "enum", None) is not None and a.enum is getattr(b, "enum", None):
+            out.enum = a.enum           # both alternatives enumerate the same predicate
+        return out
     if hasattr(a, "pyvc_merge"):
         return a.pyvc_merge(cond, b)
     if a == b:
